@@ -198,6 +198,14 @@ theorem binLoop_stop (p : Nat) (x : Expr) (ts : Toks) (h : (tk ts).prec < p) :
     simp only [tk] at h
     simp [h]
 
+theorem blt_true {a b : Nat} (h : a < b) : Nat.blt a b = true := by
+  rw [Nat.blt_eq]; exact h
+
+theorem blt_false {a b : Nat} (h : ¬ a < b) : Nat.blt a b = false := by
+  cases hb : Nat.blt a b with
+  | false => rfl
+  | true => rw [Nat.blt_eq] at hb; exact absurd hb h
+
 /-! ### Minimally parenthesised expressions -/
 
 def tkn (t : Tok) : Token := ⟨t, [], 0⟩
@@ -239,9 +247,9 @@ unary operand: 6, condition of `?:`: 1, branches of `?:`: 0). -/
 def body : PE → Toks
   | atom t => [t]
   | bin op l r =>
-    wrapT (decide (l.level < op.tok.prec)) l.body ++ op :: wrapT (decide (r.level < op.tok.prec + 1)) r.body
-  | un op e => op :: wrapT (decide (e.level < 6)) e.body
-  | cond c t f => wrapT (decide (c.level < 1)) c.body ++ tkn .Question :: (t.body ++ tkn .Colon :: f.body)
+    wrapT (Nat.blt l.level (op.tok.prec)) l.body ++ op :: wrapT (Nat.blt r.level (op.tok.prec + 1)) r.body
+  | un op e => op :: wrapT (Nat.blt e.level (6)) e.body
+  | cond c t f => wrapT (Nat.blt c.level (1)) c.body ++ tkn .Question :: (t.body ++ tkn .Colon :: f.body)
   | paren e => tkn .LParen :: (e.body ++ [tkn .RParen])
 
 /-- The tree the parser must build: the operators as nested, a ParenExpr exactly where `body` put
@@ -249,9 +257,9 @@ parentheses. -/
 def ast : PE → Expr
   | atom t => atomAst t
   | bin op l r =>
-    .bin op.tok (wrapA (decide (l.level < op.tok.prec)) l.ast) (wrapA (decide (r.level < op.tok.prec + 1)) r.ast)
-  | un op e => .un op.tok (wrapA (decide (e.level < 6)) e.ast)
-  | cond c t f => .cond (wrapA (decide (c.level < 1)) c.ast) t.ast f.ast
+    .bin op.tok (wrapA (Nat.blt l.level (op.tok.prec)) l.ast) (wrapA (Nat.blt r.level (op.tok.prec + 1)) r.ast)
+  | un op e => .un op.tok (wrapA (Nat.blt e.level (6)) e.ast)
+  | cond c t f => .cond (wrapA (Nat.blt c.level (1)) c.ast) t.ast f.ast
   | paren e => .paren e.ast
 
 /-- The tree without any ParenExpr. -/
@@ -321,12 +329,12 @@ theorem unary_paren {e : PE} (he : ∀ rest, Stop0 rest → run (parseExpr fo (e
 (positions with `ctx = 6`, and every wrapped operand). -/
 theorem emit_unary {e : PE} (c : Climb fo e) (ctx : Nat) (hc6 : 6 ≤ ctx)
     (rest : Toks) (hn : NoPostfix rest) :
-    run (parseUnary fo (wrapT (decide (e.level < ctx)) e.body ++ rest)) = some (wrapA (decide (e.level < ctx)) e.ast, rest) := by
+    run (parseUnary fo (wrapT (Nat.blt e.level (ctx)) e.body ++ rest)) = some (wrapA (Nat.blt e.level (ctx)) e.ast, rest) := by
   by_cases hw : e.level < ctx
-  · have hd : decide (e.level < ctx) = true := decide_eq_true hw
+  · have hd : Nat.blt e.level (ctx) = true := blt_true hw
     rw [hd]
     exact unary_paren fo c.expr rest hn
-  · have hd : decide (e.level < ctx) = false := decide_eq_false hw
+  · have hd : Nat.blt e.level (ctx) = false := blt_false hw
     rw [hd]
     exact c.unary (by omega) rest hn
 
@@ -334,14 +342,14 @@ theorem emit_unary {e : PE} (c : Climb fo e) (ctx : Nat) (hc6 : 6 ≤ ctx)
 `parseBinaryExpr(p)` with `p ≤ ctx`, followed by a token of precedence at most `ctx`. -/
 theorem emit_binary {e : PE} (c : Climb fo e) (ctx p : Nat) (hp : 1 ≤ p) (hpc : p ≤ ctx)
     (rest : Toks) (hn : NoPostfix rest) (hr : (tk rest).prec ≤ ctx) :
-    run (parseBinary fo p (wrapT (decide (e.level < ctx)) e.body ++ rest)) =
-      run (binLoop fo p (wrapA (decide (e.level < ctx)) e.ast) rest) := by
+    run (parseBinary fo p (wrapT (Nat.blt e.level (ctx)) e.body ++ rest)) =
+      run (binLoop fo p (wrapA (Nat.blt e.level (ctx)) e.ast) rest) := by
   by_cases hw : e.level < ctx
-  · have hd : decide (e.level < ctx) = true := decide_eq_true hw
+  · have hd : Nat.blt e.level (ctx) = true := blt_true hw
     rw [hd]
     show run (parseBinary fo p (tkn .LParen :: (e.body ++ [tkn .RParen]) ++ rest)) = run (binLoop fo p (.paren e.ast) rest)
     rw [run_parseBinary, unary_paren fo c.expr rest hn]
-  · have hd : decide (e.level < ctx) = false := decide_eq_false hw
+  · have hd : Nat.blt e.level (ctx) = false := blt_false hw
     rw [hd]
     exact c.binary (by omega) p rest hp (by omega) hn (by omega)
 
